@@ -92,7 +92,7 @@ pub const WRAPPERS: [&str; 12] = [
 ];
 
 /// Statement forms with an expression slot `{e}`.
-pub const STMT_FORMS: [&str; 55] = [
+pub const STMT_FORMS: [&str; 63] = [
     "x = {e};",
     "x += {e};",
     "x -= {e};",
@@ -148,6 +148,15 @@ pub const STMT_FORMS: [&str; 55] = [
     "if (n > 1) { s <-- {e}; } else { s <-- 7; }",
     "zz = {e};\n    zz = 8;",
     "if (n > 1) { sa[0] <-- {e}; } else { sa[0] <-- 7; }\n    s <== sa[0];",
+    // arbitrary expressions where an assignable is expected
+    "{e} <== s;",
+    "{e} <-- 1;",
+    "{e} = 1;",
+    "s ==> {e};",
+    "1 --> {e};",
+    "{e} += 1;",
+    "{e}++;",
+    "[{e}, x] <== [1, 2];",
 ];
 
 pub const CONTEXTS: [&str; 5] = ["template", "template custom", "template parallel", "function", "function-return"];
@@ -393,7 +402,7 @@ pub const OPTION_CORPUS: [&str; 6] = [
 
 pub fn run(run: &Run) {
     run.set_rule(
-        "(i) 55 statement forms x expression forms (operands, 20 infix, 3 prefix, ternary, calls, arrays, \
+        "(i) 63 statement forms (incl. arbitrary expressions in assignable position) x expression forms (operands, 20 infix, 3 prefix, ternary, calls, arrays, \
          accesses, tuples, anonymous components positional/named/unknown, parallel, `_`, literal \
          alphabet incl. 0x, p, 2^256, division by zero, huge shifts; 12 outer forms (parallel, prefix, infix, call, index, anonymous-component argument, ternary, array, tuple) over the sugar-bearing inner forms, over all inner forms and compound operands in thorough) x 5 contexts \
          (template, custom, parallel, function statement, function return); (ii) all strings <= 3 (4) \
